@@ -351,6 +351,15 @@ def run_loop(case):
                total_timesteps=case["total_timesteps"], snapshots=False,
                logger=False, n_states=4, n_actions=3,
                gamma=0.9, learning_rate=0.3, epsilon=0.3)
+    if case["seed"] % 2 or algo in ("dynaq", "monte_carlo"):
+        # process history: an earlier, unrelated training call with tables of
+        # the same shape (other seed, other episode script) must not leak in
+        pre = make_run(algo, dict(cfg, seed=case["seed"] + 313, total_timesteps=40,
+                                  script=[[2, "T"], [6, "U"], [4, "T"]]))
+        ok, _ = guarded(res, f"C14/raises/train_{algo}", pre.call)
+        if not ok:
+            return res
+        res.see("loops_after_an_earlier_run")
     run = make_run(algo, cfg)
     mod = importlib.import_module(run.patch_modules[0])
     tr = run.trace
